@@ -418,10 +418,12 @@ func (b *tableCompactionBuilder) flush() error {
 
 func (b *tableCompactionBuilder) cleanup() error {
 	if b.tw != nil {
-		if err := b.tw.drop(); err != nil {
+		err := b.tw.drop()
+		// The writer is unusable whether or not its file could be removed.
+		b.tw = nil
+		if err != nil {
 			return err
 		}
-		b.tw = nil
 	}
 	return nil
 }
